@@ -428,6 +428,10 @@ def check(pid, cfg, tier, seed):
                                            "detail": r["crashed"]})
                     for fl in (r["stats"] or {}).get("failures") or []:
                         seq = fl["ops"]
+                        k = match_finding(findings, pid, fl["assertion"], fl["detail"])
+                        if k:
+                            known_hits.setdefault(k["id"], k)
+                            continue
                         small = ddmin(seq, lambda c, _a=fl["assertion"], _e=e["name"]: any(
                             x["assertion"] == _a for x in replay_seq(_e, pid, c, work, "shr")[1]))
                         _, fails2, _ = replay_seq(e["name"], pid, small, work, "shr")
